@@ -90,3 +90,6 @@ def run(ctx):
     rnd.shuffle(runs)
     ctx.log("replay cases: %d" % len(runs))
     ctx.replay(runs, timeout=3000)
+    # EXT: PaddedCell in the cell-grid world (spec/PaddedCells.tla)
+    from checks import ext_structs
+    ext_structs.run_paddedcell(ctx)
